@@ -159,6 +159,59 @@ def x1(run, model, vh, quick):
         shown += 1
         run.violation("htl:" + sha(vlib.enc_case(c)), "Executor::hasToLog sequence: model %s, implementation %s" % (vlib.show(m), vlib.show(i)),
                       {"broken": "correspondence hasToLog", "case_line": vlib.enc_case(c), "model": vlib.show(m), "impl": vlib.show(i)}, found_input=False)
+    # hasToLog on full messages (0-3 frames) with a non-empty location template: the key is the whole rendered text
+    n = 1500 if quick else 40000
+    ids = [x for x in G.IDS if x]
+    texts = [x for x in G.TEXTS if x] + [b""]
+    rcases = [[rng.random() < 0.3] + P.gen_htl_msg(rng, ids, texts) for _ in range(600 if quick else 20000)]
+    d = vlib.correspond(run, "ErrorMessage::toString (fixed templates)", model, [vh, "render"], rcases, tag="render",
+                        nontrivial=lambda c, m, i: sha(vlib.enc_case(c)), bucket=lambda c, m, i: "frames%s" % c[11])
+    for c, m, i in d[:2]:
+        run.violation("render:" + sha(vlib.enc_case(c)), "ErrorMessage::toString with location template: model %s, implementation %s" % (vlib.show(m), vlib.show(i)),
+                      {"broken": "correspondence toString", "case_line": vlib.enc_case(c), "model": vlib.show(m), "impl": vlib.show(i)}, found_input=False)
+    cs = []
+    for _ in range(n):
+        nomsg = G.gen_supp_list(rng, rng.randint(0, 3))
+        pool = [P.gen_htl_msg(rng, ids, texts) for _ in range(rng.randint(1, 4))]
+        ms = []
+        for _ in range(rng.randint(2, 8)):
+            m0 = list(rng.choice(pool))
+            if m0[10] >= 2 and rng.random() < 0.5:
+                # same head line (last frame, id, message), different note trail
+                m0[11 + 2] = rng.choice(P.H_FILES)
+                m0[11 + 0] = rng.choice([1, 2, 3])
+            ms.append(m0)
+        cs.append(([rng.random() < 0.15] + G.flat(nomsg) + [len(ms)] + [x for m0 in ms for x in m0], ms))
+    nm = {id(c[0]): c for c in cs}
+
+    def trail_kind(c):
+        ms = nm[id(c)][1]
+        heads = {}
+        for m0 in ms:
+            nf = m0[10]
+            last = tuple(m0[11 + 5 * (nf - 1):11 + 5 * nf]) if nf else ()
+            heads.setdefault((m0[0], m0[7], last[:3]), set()).add(tuple(m0[11:]))
+        return "same-head-different-trail" if any(len(v) > 1 for v in heads.values()) else "plain"
+
+    d = vlib.correspond(run, "Executor::hasToLog (call stacks, location template)", model, [vh, "htlm"], [c[0] for c in cs], tag="htlm",
+                        nontrivial=lambda c, m, i: sha(vlib.enc_case(c)) if (not i or i[0] != b"rejected") else None,
+                        bucket=lambda c, m, i: "rejected" if i and i[0] == b"rejected" else trail_kind(c))
+    shown = 0
+    for c, m, i in sorted(d, key=lambda x: len(x[0])):
+        if (i and i[0] == b"rejected") or m == [b"F"] or shown >= 2:
+            continue
+        shown += 1
+        ms = nm[id(c)][1]
+        k = len(ms)
+        # the property on the implementation: with duplicates filtered, two messages are merged only if their full texts are equal
+        _, ro, _ = vlib.run_lines([vh, "render"], [vlib.enc_case([False] + m0) for m0 in ms])
+        texts_impl = [vlib.dec_line(x) for x in ro]
+        run.violation("htlm:" + sha(vlib.enc_case(c)),
+                      "Executor::hasToLog on messages with call stacks: forwarded flags differ (model %s, implementation %s); "
+                      "the duplicate key must be the full text toString(verbose, templateFormat, templateLocation)" % (vlib.show(m[:k]), vlib.show(i[:k])),
+                      {"messages": [vlib.show(m0) for m0 in ms], "rendered_texts": [vlib.show(t) for t in texts_impl],
+                       "model_forwarded": vlib.show(m[:k]), "impl_forwarded": vlib.show(i[:k]), "case_line": vlib.enc_case(c),
+                       "how": "echo <case_line> | build/harness/vh_c15 htlm  (templates %s / %s)" % ("{file}:{line}:{column}:{id}:{message}", "{file}:{line}:{column}:{info}")})
     # updateSuppressionState
     n = 800 if quick else 30000
     cs = []
@@ -192,6 +245,11 @@ SNIPPETS = [
     (None, "int %(f)s(int x) {\n  return x + 1;%(sup)s\n}\n"),
 ]
 HEADER = "static inline int hdr_%(n)d(void) {\n  int h[3];\n  h[3] = 1;\n  return h[0];\n}\n"
+# helpers whose finding lies in the header while its note trail passes through the calling translation unit
+TRAIL_HEADER = ("#ifndef TRAIL_H\n#define TRAIL_H\nstatic inline int scale(int value, int divisor)\n{\n    return value / divisor;\n}\n"
+                "static inline int ratio(int a, int b)\n{\n    return a % b;\n}\n#endif\n")
+TRAIL_CALLS = ["int %(f)s(int v)\n{\n    int d = 0;\n    return scale(v, d);\n}\n",
+               "int %(f)s(int w)\n{\n    int z = 0;\n    return ratio(w, z);\n}\n"]
 
 
 def gen_project(rng, d, hostile=None):
@@ -202,9 +260,14 @@ def gen_project(rng, d, hostile=None):
     for h in range(nh):
         open(os.path.join(d, "h%d.h" % h), "w").write(HEADER % {"n": h})
     ids_used = set()
+    trail = hostile is None and rng.random() < 0.6
+    if trail:
+        open(os.path.join(d, "trail.h"), "w").write(TRAIL_HEADER)
     for k in range(nfiles):
         name = "f%d.c" % k
         body = ""
+        if trail and (k < 2 or rng.random() < 0.6):
+            body += '#include "trail.h"\n' + rng.choice(TRAIL_CALLS) % {"f": "tr_%d" % k}
         for h in range(nh):
             if rng.random() < 0.6:
                 body += '#include "h%d.h"\n' % h
@@ -251,11 +314,23 @@ def gen_project(rng, d, hostile=None):
     return files, opts
 
 
+WP_SEEN = [False]
+
+
+def whole_program_id(i):
+    """whole-program findings are outside the equality when no build dir is used (property statement)"""
+    r = i == "unusedFunction" or i.startswith("ctu")
+    if r:
+        WP_SEEN[0] = True
+    return r
+
+
 def run_cppcheck(d, files, opts, par, xml):
-    cmd = [vlib.CPPCHECK, "-q"] + opts + par + (["--xml"] if xml else ["--template={file}:{line}:{column}:{severity}:{id}:{message}"]) + files
+    fmt = {True: ["--xml"], False: ["--template={file}:{line}:{column}:{severity}:{id}:{message}"], "default": []}[xml]
+    cmd = [vlib.CPPCHECK, "-q"] + opts + par + fmt + files
     p = subprocess.run(cmd, cwd=d, stdout=subprocess.PIPE, stderr=subprocess.PIPE, timeout=300)
     err = p.stderr.decode("latin-1")
-    if xml:
+    if xml is True:
         items = re.findall(r"<error .*?</error>|<error [^>]*/>", err, re.S)
         canon = []
         for it in items:
@@ -263,9 +338,26 @@ def run_cppcheck(d, files, opts, par, xml):
             attrs = dict(re.findall(r'(\w+)="([^"]*)"', head))
             locs = sorted(tuple(sorted(dict(re.findall(r'(\w+)="([^"]*)"', l)).items())) for l in re.findall(r"<location ([^>]*)/>", it))
             # the statement compares ids, severities, messages, locations
+            if whole_program_id(attrs.get("id") or ""):
+                continue
             canon.append(repr(((attrs.get("id"), attrs.get("severity"), attrs.get("msg"), attrs.get("verbose"), attrs.get("inconclusive")), locs)))
         return sorted(canon), p.returncode
     lines = [l for l in err.split("\n") if l.strip()]
+    if xml == "default":
+        # blocks: a head line `file:line:col: severity: message [id]` with its note / code / caret lines;
+        # the comparison is on whole blocks (full text incl. the note trail)
+        blocks, cur = [], None
+        for l in lines:
+            if re.match(r"^\S.*: (error|warning|style|performance|portability|information|debug): .*\[[\w-]+\]$", l) and ": note: " not in l:
+                cur = [l]
+                blocks.append(cur)
+            elif cur is not None:
+                cur.append(l)
+            else:
+                blocks.append([l])
+        keep = [b for b in blocks if not whole_program_id(re.search(r"\[([\w-]+)\]$", b[0]).group(1) if re.search(r"\[([\w-]+)\]$", b[0]) else "")]
+        return sorted("\n".join(b) for b in keep), p.returncode
+    lines = [l for l in lines if not (len(l.split(":")) > 4 and whole_program_id(l.split(":")[4]))]
     return sorted(lines), p.returncode
 
 
@@ -283,16 +375,18 @@ def x2(run, quick):
             d = os.path.join(base, "p%d" % n)
             os.makedirs(d)
             files, opts = gen_project(rng, d, hostile)
-            for xml in (False, True):
+            for xml in (False, True, "default"):
+                WP_SEEN[0] = False
                 ref, rc = run_cppcheck(d, files, opts, ["-j1"], xml)
                 for par in configs:
                     out, rc2 = run_cppcheck(d, files, opts, par, xml)
                     st["evaluations"] += 1
                     if ref:
                         st["nontrivial"].add("%d/%s/%s" % (n, xml, " ".join(par)))
-                    b = "%s,%s,%s" % (hostile or "plain", "xml" if xml else "text", par[1][11:])
+                    fmtname = {True: "xml", False: "text", "default": "default-template"}[xml]
+                    b = "%s,%s,%s" % (hostile or "plain", fmtname, par[1][11:])
                     st["hist"][b] = st["hist"].get(b, 0) + 1
-                    if out == ref and rc == rc2:
+                    if out == ref and (rc == rc2 or WP_SEEN[0]):
                         continue
                     st["disagreements"] += 1
                     only1 = [x for x in ref if x not in out]
@@ -300,7 +394,7 @@ def x2(run, quick):
                     srcs = {}
                     for fn in sorted(os.listdir(d)):
                         srcs[fn] = open(os.path.join(d, fn), "rb").read().decode("latin-1")
-                    rep = {"files": srcs, "options": opts, "parallel": par, "format": "xml" if xml else "text",
+                    rep = {"files": srcs, "options": opts, "parallel": par, "format": fmtname,
                            "only_in_j1": only1[:6], "only_in_jN": onlyn[:6], "exit_j1": rc, "exit_jN": rc2,
                            "how": "write the files, run build/repo/bin/cppcheck -q <options> -j1 <files> and again with <parallel>; compare sorted stderr"}
                     if hostile == "nonprint" and par[1].endswith("process") and rc == rc2:
@@ -310,7 +404,7 @@ def x2(run, quick):
                     else:
                         key = "x2:" + sha(repr((sorted(srcs.items()), opts, par, xml)))
                         run.violation(key, "-j1 and %s report different findings/exit status (%s): only -j1 %s, only -jN %s, exit %s vs %s"
-                                      % (" ".join(par), "xml" if xml else "text", only1[:2], onlyn[:2], rc, rc2), rep)
+                                      % (" ".join(par), fmtname, only1[:2], onlyn[:2], rc, rc2), rep)
     finally:
         shutil.rmtree(base, ignore_errors=True)
 
